@@ -3,7 +3,7 @@ import ast
 
 from ..core import AnalysisError, dotted, call_name, src, walk_local, const_value
 from ..flow import edge_facts, linear, Lin
-from ..rules import anchored_fn, flow_of, calls_in, bind_args, canon, facts_at, cmp_norm, alts_deep, state_writes, region, store_targets
+from ..rules import anchored_fn, flow_of, calls_in, bind_args, canon, facts_at, cmp_norm, alts_deep, state_writes, region, store_targets, flow_expand_atom
 from ..indexdom import check_function as index_check
 from ..units import check_units
 from ..tables import UNITS
@@ -129,16 +129,35 @@ def rule_pipeline(ck, rid="C07.R1"):
 
 def rule_pre_details(ck):
     repo = ck.repo
-    rf = anchored_fn(repo, "remove_finished_sessions", ("modified_sessions",))
+    # remove_finished_sessions: whatever way the list is built (loop + append, comprehension, through a local helper), the returned
+    # value expands to one comprehension  [s for s in sessions if <threshold> < s.remaining_demand]
+    rf = repo.fn("remove_finished_sessions")
     fl = flow_of(rf)
-    apps = [(n, c) for n, c in calls_in(fl, "append")]
-    ck.require(len(apps) == 1, "C07.R1", rf, apps[0][1] if apps else "append", bad=f"{len(apps)} appends in remove_finished_sessions", sink="rfs:append")
-    for n, c in apps:
-        ok = any((cn := cmp_norm(fl.expand(a, n), t)) and cn[1] == "<" and canon(cn[2]) == "session.remaining_demand" and "min_pilot" in canon(cn[0]) and "voltages" in canon(cn[0])
-                 for a, t in facts_at(fl, n))
-        ck.require(ok, "C07.R1", rf, c, ok="kept only while remaining demand exceeds one minimum-pilot period of energy",
-                   bad="sessions are kept without the `remaining_demand > min_pilot energy of one period` test: finished sessions keep being charged", sink="rfs:threshold")
-        ck.require(c.args and canon(fl.expand(c.args[0], n)) == "session", "C07.R1", rf, c, ok="the session itself is kept", bad="something other than the session is appended", sink="rfs:elem")
+    rets = [n for n in fl.cfg.nodes if n.kind == "return"]
+    if not rets:
+        raise AnalysisError("remove_finished_sessions: no return")
+    for r in rets:
+        ex = fl.expand(r.expr, r) if r.expr is not None else None
+        while isinstance(ex, ast.Call) and call_name(ex) in ("list", "tuple") and len(ex.args) == 1:
+            ex = ex.args[0]
+        if not (isinstance(ex, (ast.ListComp, ast.GeneratorExp)) and len(ex.generators) == 1 and isinstance(ex.generators[0].target, ast.Name)):
+            raise AnalysisError(f"remove_finished_sessions: construction of the returned list not recognised: {src(ex, 80) if ex is not None else None}")
+        g = ex.generators[0]
+        v = g.target.id
+        it = g.iter
+        while isinstance(it, ast.Call) and call_name(it) in ("list", "tuple", "iter") and len(it.args) == 1:
+            it = it.args[0]
+        ck.require(dotted(it) == rf.params[0], "C07.R1", rf, g.iter, ok="ranges over the given sessions", bad=f"the kept sessions are drawn from `{src(g.iter, 50)}`, not from the given session list",
+                   sink="rfs:source")
+        conds = []
+        for t in g.ifs:
+            conds += t.values if isinstance(t, ast.BoolOp) and isinstance(t.op, ast.And) else [t]
+        good = [c for t in conds if (c := cmp_norm(t, True)) and c[1] == "<" and dotted(c[2]) == f"{v}.remaining_demand"
+                and "min_pilot" in _canon(c[0]) and "voltages" in _canon(c[0])]
+        ck.require(len(good) == 1 and len(conds) == 1, "C07.R1", rf, g.ifs[0] if g.ifs else ex, ok="kept only while remaining demand exceeds one minimum-pilot period of energy",
+                   bad="sessions are not kept exactly under the `remaining_demand > min_pilot energy of one period` test: finished sessions keep being charged "
+                       "(or unfinished ones are dropped)", sink="rfs:threshold")
+        ck.require(dotted(ex.elt) == v, "C07.R1", rf, ex.elt, ok="the session itself is kept", bad="something other than the session is kept", sink="rfs:elem")
     am = anchored_fn(repo, "apply_minimum_charging_rate", ("rates", "session_queue"))
     al = flow_of(am)
     chk = [n for n in al.cfg.nodes if n.kind == "test" and any(is_feasible_call(x) for x in ast.walk(n.expr))]
@@ -239,7 +258,7 @@ def rule_bounds(ck):
         if n.kind != "stmt" or not isinstance(n.stmt, (ast.Assign, ast.AnnAssign)) or getattr(n.stmt, "value", None) is None:
             continue
         for sub in [x for x in ast.walk(n.stmt.value) if isinstance(x, ast.Subscript)]:
-            cj = mask_conjuncts(sub.slice)
+            cj = mask_conjuncts(sub.slice) or (mask_conjuncts(flow_expand_atom(rl, sub.slice, n)) if isinstance(sub.slice, ast.Name) else [])
             if not cj or "allowable_pilots" not in canon(rl.expand(sub.value, n)):
                 continue
             for cmp_ in cj:
